@@ -6406,9 +6406,14 @@ impl Nudge {
                     unit = largest.plural(),
                 )
             })?
+            // N.B. Weeks are not copied from the balanced span here. Weeks
+            // are invariant and therefore part of `rounded_nanos`. When the
+            // largest unit is weeks, they have been re-derived from the
+            // rounded value just above (copying the old week count would
+            // undo any carry into, or borrow from, the weeks). For any other
+            // largest unit, a balanced span has no weeks.
             .years_ranged(balanced.get_years_ranged())
-            .months_ranged(balanced.get_months_ranged())
-            .weeks_ranged(balanced.get_weeks_ranged());
+            .months_ranged(balanced.get_months_ranged());
 
         let diff_nanos = rounded_nanos - balanced_nanos;
         let diff_days = rounded_nanos.div_ceil(t::NANOS_PER_CIVIL_DAY)
